@@ -429,6 +429,25 @@ func c7genHpred(rng *RNG, q *c7query, depth int) *c7hpred {
 		return &c7hpred{kind: k, p: c7genHpred(rng, q, depth-1), q: c7genHpred(rng, q, depth-1)}
 	}
 	cmps := []string{">", ">=", "<", "<=", "=", "!=", ">", "<"}
+	if rng.Intn(7) == 0 {
+		// sibling calls: two (usually unselected) aggregates with the same function and the same first column whose
+		// arguments differ - each needs its own hidden aggregate
+		agg := []string{"sum", "avg", "min", "max"}[rng.Intn(4)]
+		f := rng.Intn(3)
+		a1 := &c7aexp{kind: 'f', f: f}
+		var a2 *c7aexp
+		if rng.Bool() {
+			a2 = &c7aexp{kind: 'b', op: "+-*"[rng.Intn(3)], x: &c7aexp{kind: 'f', f: f}, y: &c7aexp{kind: 'f', f: rng.Intn(3)}}
+		} else {
+			a2 = &c7aexp{kind: 'b', op: "+*"[rng.Intn(2)], x: &c7aexp{kind: 'f', f: f}, y: &c7aexp{kind: 'l', lit: rng.Range(2, 4)}}
+		}
+		x := &c7hexp{kind: 'A', call: &c7pexp{kind: 'A', agg: agg, arg: a1, upper: rng.Bool()}}
+		y := &c7hexp{kind: 'A', call: &c7pexp{kind: 'A', agg: agg, arg: a2, upper: rng.Bool()}}
+		if rng.Bool() {
+			x, y = y, x
+		}
+		return &c7hpred{kind: '?', cmp: cmps[rng.Intn(len(cmps))], x: x, y: y}
+	}
 	x := c7genHexp(rng, q, 1)
 	var y *c7hexp
 	if rng.Intn(3) > 0 {
